@@ -124,6 +124,8 @@ impl<T: CancelIo> CancelImpl<T> {
     #[cold]
     pub unsafe fn cancel(&self) {
         self.state.fetch_or(1, Ordering::Release);
+        #[cfg(may_verif)]
+        may_queue::verif::point(may_queue::verif::site::CANCEL_BIT_SET, self as *const _ as usize);
 
         if let Some(Ok(())) = self.io.cancel() {
             // successfully canceled
@@ -132,6 +134,8 @@ impl<T: CancelIo> CancelImpl<T> {
 
         if let Some(co) = self.co.take() {
             if let Some(mut co) = co.take() {
+                #[cfg(may_verif)]
+                may_queue::verif::point(may_queue::verif::site::CANCEL_TOOK, self as *const _ as usize);
                 // this is not safe, the kernel may still need to use the overlapped
                 // set the cancel result for the coroutine
                 set_co_para(&mut co, io::Error::other("Canceled"));
